@@ -103,7 +103,67 @@ def property_cases():
                         return p, bind
 
                     out.append(("Property(%s, required=%s, source=%r) bound as %s" % (el_label, req, src, bind), f))
+    # one Property object bound under one name and later re-used under another (a genuine rename: name != source)
+    for el_label, el in (("String()", lambda: String()), ("Integer(default=1)", lambda: Integer(default=1))):
+        for first, second in (("a", "b"), ("a", "a"), ("class_", "x")):
+            def g(el=el, first=first, second=second):
+                p = Property(el())
+                Element(properties={first: p})
+                holder = Element(properties={second: p})
+                return p, second
+
+            out.append(("Property(%s) bound as %s, then re-used as %s" % (el_label, first, second), g))
+
+            def h(el=el, first=first, second=second):
+                p = Property(el())
+
+                class A(Object):
+                    pass
+
+                A.properties[first] = p
+
+                class B(Object):
+                    pass
+
+                B.properties[second] = p
+                return p, second
+
+            out.append(("Property(%s) in class under %s, then in another class under %s" % (el_label, first, second), h))
     return out
+
+
+def threaded_repr(st, shard=None):
+    """E3 on repr: two threads render the same shared element (directly and as a child of another element) at the same
+    time; every schedule with <= 1 preemption at line granularity; each repr must equal the sequential one."""
+    from mc import sched
+
+    cases = {
+        "same-element": lambda: (lambda e: [e, e])(AnyOf(String(minLength=1), Array(Integer(minimum=2)), default="x")),
+        "element-and-parent": lambda: (lambda e: [e, Array(e, minItems=1)])(Element(properties={"a": Property(String(), required=True)}, required=["z"])),
+    }
+    for label, mk in cases.items():
+        want = [repr(x) for x in mk()]
+
+        def make_bodies():
+            els = mk()
+            return [(lambda x=x: repr(x)) for x in els], els
+
+        def check(ex, els, schedule):
+            st.add("evaluations")
+            st.add("states")
+            st.add("traces")
+            st.add("transitions", ex.steps)
+            got = [ex.results.get(i) for i in range(len(want))]
+            if got != want or ex.errors:
+                st.violation("concurrent-repr-differs", "%s: under schedule %s the reprs are %s (errors %s), sequentially %s" % (label, sorted(schedule.items()), got, ex.errors, want), {"case": label, "schedule": sorted(schedule.items()), "got": got, "sequential": want}, rank=len(schedule))
+
+        try:
+            for start in (0, 1):
+                res = sched.explore(make_bodies, check, 1, "line", base={0: start}, shard=shard or (0, 1))
+                st.add("schedules", res["executions"])
+        except (sched.ScheduleDivergence, sched.Deadlock) as exc:
+            st.violation("HARNESS:%s" % type(exc).__name__, "%s: %s" % (label, exc), {"case": label})
+    st.outcome("threaded-repr")
 
 
 def namespace(x):
@@ -193,6 +253,8 @@ def check_property(st, label, factory, rank=0):
     st.add("nontrivial")
     if bind:
         q.bind(name=bind, parent=Element())
+    if p.name is not None and p.source != p.name and "source=" not in text:
+        st.violation("property-repr-drops-source", "%s: the property is bound as %r with JSON name %r but its repr %s does not say so" % (label, p.name, p.source, text), case, rank)
     if not (q == p and p == q) or not isinstance(q, _Property):
         st.violation("property-repr-does-not-rebuild", "%s: eval(%s)%s is not equal to the original (source %r vs %r, required %r vs %r)" % (label, text, " bound as %s" % bind if bind else "", q.source, p.source, q.required, p.required), case, rank)
     tree = ast.parse(text, mode="eval").body
@@ -217,6 +279,7 @@ def plan(tier, seed):
     chunk = 400
     items = [("el", lo, min(len(els), lo + chunk), tier) for lo in range(0, len(els), chunk)]
     items += [("prop", 0, len(props), tier)]
+    items += [("threads", r, 8, tier) for r in range(8)]
     return {"items": items, "meta": {"elements": len(els), "properties": len(props), "literals": len(LITERALS), "keyword_subset_size": 3 if tier == "quick" else 4, "exhaustive": True}}
 
 
@@ -226,6 +289,11 @@ _CASES = {}
 def work(item):
     st = runner.Stats()
     els, props = _CASES.setdefault(item[3], all_cases(item[3]))
+    if item[0] == "threads":
+        threaded_repr(st, (item[1], item[2]))
+        if item[1] == 0:
+            st.sample({"threaded_repr": "2 threads x 2 cases, <=1 preemption at line granularity"})
+        return st
     if item[0] == "el":
         for label, fac in els[item[1]:item[2]]:
             check_element(st, label, fac)
@@ -239,6 +307,9 @@ def work(item):
 
 def replay(case):
     st = runner.Stats()
+    if "schedule" in case:
+        threaded_repr(st)
+        return [v for lst in st.violations.values() for _, v in lst]
     els, props = all_cases("thorough")
     if "element" in case:
         for label, fac in els:
